@@ -16,9 +16,11 @@ import (
 	"strings"
 	"sync"
 	"syscall"
-	"testing/synctest"
 	"time"
 
+	"testing/synctest"
+
+	"github.com/pion/ice/v4/internal/zzmc"
 	"github.com/pion/stun/v3"
 	"github.com/pion/transport/v4"
 	"github.com/pion/turn/v5"
@@ -244,6 +246,7 @@ type gatherWorld struct {
 	fn       *fakeNet
 	a        *Agent
 	candLog  []string // OnCandidate stream ("nil" for the end-of-gathering marker)
+	candObjs []Candidate
 	candGen  []int    // generation (number of restarts) at delivery time
 	states   []ConnectionState
 	problems []vtProblem
@@ -411,15 +414,16 @@ func newGatherWorld(raw json.RawMessage) *gatherWorld {
 		} else {
 			gw.candLog = append(gw.candLog, c.Marshal())
 		}
+		gw.candObjs = append(gw.candObjs, c)
 		gw.candGen = append(gw.candGen, gw.fn.gen)
 	})
 	_ = a.OnConnectionStateChange(func(s ConnectionState) { gw.states = append(gw.states, s) })
-	synctest.Wait()
+	quiesce()
 	if cfg.Start {
 		if _, err := a.StartDial(vUfragB, vPwdB); err != nil {
 			panic(err)
 		}
-		synctest.Wait()
+		quiesce()
 	}
 
 	return gw
@@ -454,6 +458,15 @@ func (gw *gatherWorld) pendingSTUN() []dgram {
 
 // stunReply answers request d with a reflexive address.
 func (gw *gatherWorld) stunReply(d dgram) {
+	if i := gw.find(d.seq); i >= 0 {
+		gw.inflight = append(gw.inflight[:i:i], gw.inflight[i+1:]...)
+	}
+	gw.answerSTUN(d)
+	quiesce()
+}
+
+// answerSTUN builds the success response for request d and hands it to the requesting socket.
+func (gw *gatherWorld) answerSTUN(d dgram) {
 	req := &stun.Message{Raw: append([]byte{}, d.data...)}
 	if err := req.Decode(); err != nil {
 		panic(err)
@@ -468,13 +481,9 @@ func (gw *gatherWorld) stunReply(d dgram) {
 	if err != nil {
 		panic(err)
 	}
-	if i := gw.find(d.seq); i >= 0 {
-		gw.inflight = append(gw.inflight[:i:i], gw.inflight[i+1:]...)
-	}
 	if s, ok := gw.socks[d.srcSock]; ok && !s.isClosed() {
 		s.in <- rxPacket{d.dst, out.Raw}
 	}
-	synctest.Wait()
 }
 
 // openResources lists resources that are open now (closed zero times), optionally of one generation.
@@ -500,14 +509,14 @@ func (gw *gatherWorld) Close() {
 	}
 	// abandoned exchanges of superseded cycles (a TURN allocation nobody answers) end on their own timeouts
 	time.Sleep(30 * time.Second)
-	synctest.Wait()
+	quiesce()
 	if gw.udpMux != nil {
 		_ = gw.udpMux.Close()
 	}
 	if gw.tcpMux != nil {
 		_ = gw.tcpMux.Close()
 	}
-	synctest.Wait()
+	quiesce()
 }
 
 func (gw *gatherWorld) localCands() []Candidate {
@@ -519,4 +528,12 @@ func (gw *gatherWorld) localCands() []Candidate {
 	})
 
 	return out
+}
+
+// quiesce waits until every goroutine of the bubble is durably blocked. Under the CS scheduler the
+// scheduler itself does that between steps, and a second Wait is not allowed.
+func quiesce() {
+	if !zzmc.Active() {
+		synctest.Wait()
+	}
 }
